@@ -272,12 +272,17 @@ func appendAnalyticFunctionToListIfNotExist(list1 []parser.AnalyticFunction, lis
 		return m
 	}
 
+	// The functions are evaluated in the order of this list, and every evaluation sorts the view:
+	// the order must not depend on the iteration order of a map.
 	m1 := createMap(list1)
-	m2 := createMap(list2)
-	for k, v := range m2 {
-		if _, ok := m1[k]; !ok {
-			list1 = append(list1, v)
+	added := make(map[string]bool, len(list2))
+	for _, v := range list2 {
+		k := FormatFieldIdentifier(v)
+		if _, ok := m1[k]; ok || added[k] {
+			continue
 		}
+		added[k] = true
+		list1 = append(list1, v)
 	}
 
 	return list1
